@@ -660,7 +660,7 @@ def r9_rules(rep, F, get):
             rep.ok("C14.R9", ac, "return %s at %s agrees with the linking of the callback" % (v.get("v"), loc_of(ev)))
     for b, i in link:
         fb = ffa.before.get((b, i)) or frozenset()
-        if not any(t and re.match(r"^\w+(\.operator bool\(\))?$", a) for a, t in fb):
+        if not any(t and (re.match(r"^\w+(\.operator bool\(\))?$", a) or "lock_if_not_stopped(" in a) for a, t in fb):
             rep.bad("C14.R9", ac, loc_of(ac.blocks[b].events[i]), "link-without-lock", "callbacks_ is modified although lock_if_not_stopped did not report the lock as taken")
     # remove_callback: the write through is_removed_
     rc = get(SSq + "::remove_callback")
